@@ -4,7 +4,7 @@
    domain has seen through strong ones. *)
 From Coq Require Import List Arith Bool PeanoNat Lia Permutation.
 From Krrood Require Import Onto.RegistrySpec Onto.Registry Onto.RegistryLemmas Onto.RegistryInv Onto.RegistryProofs
-  Onto.RegistryQuery.
+  Onto.RegistryQuery Onto.RegistryRel.
 Import ListNotations.
 
 (* ------------------------------------------------------------------ container sizes *)
@@ -76,73 +76,111 @@ Proof.
 Qed.
 
 (* ------------------------------------------------------------------ who references what *)
-Inductive hnode := HSymbolGraph | HExprTable | HProgram | HWrapper (o : obj) | HVar (k : nat) | HObj (o : obj).
+Inductive hnode :=
+| HSymbolGraph | HExprTable | HProgram
+| HWrapper (o : obj) | HVar (k : nat) | HEval (n : nat) | HObj (o : obj).
 Inductive strength := Strong | Weak.
 Definition href := (hnode * strength * hnode)%type.
 
-Fixpoint var_refs (k : nat) (vs : list (cls * vstate)) : list href :=
+(* the query objects: registered in the process-wide expression tables, holding no instance *)
+Fixpoint var_refs (k : nat) (vs : list cls) : list href :=
   match vs with
   | [] => []
-  | v :: vs' => (HExprTable, Strong, HVar k) :: map (fun o => (HVar k, Strong, HObj o)) (cache_of v) ++ var_refs (S k) vs'
+  | _ :: vs' => (HExprTable, Strong, HVar k) :: var_refs (S k) vs'
+  end.
+
+(* the live evaluations: iterators the program holds; each holds the cache of what it has passed on *)
+Fixpoint eval_refs (n : nat) (es : list (option ev)) : list href :=
+  match es with
+  | [] => []
+  | None :: es' => eval_refs (S n) es'
+  | Some e :: es' =>
+      (HProgram, Strong, HEval n) :: map (fun o => (HEval n, Strong, HObj o)) (somes (e_seen e)) ++ eval_refs (S n) es'
   end.
 
 Definition refs (s : st) : list href :=
   map (fun w => (HSymbolGraph, Strong, HWrapper (w_obj w))) (nodes (g s) ++ wl (g s) ++ map snd (by_id (g s)))
   ++ map (fun w => (HWrapper (w_obj w), Weak, HObj (w_obj w))) (nodes (g s) ++ wl (g s) ++ map snd (by_id (g s)))
   ++ var_refs 0 (vars s)
+  ++ eval_refs 0 (evals s)
   ++ map (fun o => (HProgram, Strong, HObj o)) (user s).
 
 Inductive sreach (E : list href) : hnode -> hnode -> Prop :=
 | sr_refl a : sreach E a a
 | sr_step a b c : In (a, Strong, b) E -> sreach E b c -> sreach E a c.
 
-Lemma var_refs_shape vs : forall k a st b, In (a, st, b) (var_refs k vs) ->
-  (a = HExprTable /\ exists j, b = HVar j) \/ (exists j o, a = HVar j /\ b = HObj o).
+Lemma var_refs_shape vs : forall k a st b, In (a, st, b) (var_refs k vs) -> a = HExprTable /\ exists j, b = HVar j.
 Proof.
   induction vs as [|v vs IH]; simpl; intros k a st b Hin; [tauto|].
+  destruct Hin as [E|Hin]; [inversion E; subst; eauto|eapply IH; eauto].
+Qed.
+
+Lemma eval_refs_shape es : forall n a st b, In (a, st, b) (eval_refs n es) ->
+  (a = HProgram /\ exists j, b = HEval j) \/ (exists j o, a = HEval j /\ b = HObj o).
+Proof.
+  induction es as [|[e|] es IH]; simpl; intros n a st b Hin; [tauto| |eapply IH; eauto].
   rewrite in_app_iff, in_map_iff in Hin. destruct Hin as [E|[[u [E _]]|Hin]].
   - inversion E; subst. left. eauto.
   - inversion E; subst. right. eauto.
   - eapply IH; eauto.
 Qed.
 
-Lemma refs_from_graph s b : In (HSymbolGraph, Strong, b) (refs s) -> exists o, b = HWrapper o.
+(* from a krrood root (the symbol graph, the expression tables) one strong step leads to a wrapper or a query object ... *)
+Lemma refs_from_root s a b : a = HSymbolGraph \/ a = HExprTable -> In (a, Strong, b) (refs s) ->
+  (exists o, b = HWrapper o) \/ (exists k, b = HVar k).
 Proof.
-  unfold refs. rewrite !in_app_iff, !in_map_iff.
-  intros [[w [E _]]|[[w [E _]]|[Hin|[u [E _]]]]]; try (inversion E; eauto; fail).
-  apply var_refs_shape in Hin. destruct Hin as [[E _]|[j [o [E _]]]]; discriminate.
+  intros Ha. unfold refs. rewrite !in_app_iff, !in_map_iff.
+  intros [[w [E _]]|[[w [E _]]|[Hin|[Hin|[u [E _]]]]]].
+  - inversion E; eauto.
+  - inversion E.
+  - apply var_refs_shape in Hin. destruct Hin as [_ [j ->]]. eauto.
+  - apply eval_refs_shape in Hin. destruct Hin as [[-> _]|[j [o [-> _]]]]; destruct Ha; discriminate.
+  - inversion E; subst. destruct Ha; discriminate.
 Qed.
 
-Lemma refs_from_wrapper s o b : ~ In (HWrapper o, Strong, b) (refs s).
+(* ... and neither a wrapper nor a query object has a strong reference to anything *)
+Lemma refs_dead_end s a b : (exists o, a = HWrapper o) \/ (exists k, a = HVar k) -> ~ In (a, Strong, b) (refs s).
 Proof.
-  unfold refs. rewrite !in_app_iff, !in_map_iff.
-  intros [[w [E _]]|[[w [E _]]|[Hin|[u [E _]]]]]; try discriminate.
-  apply var_refs_shape in Hin. destruct Hin as [[E _]|[j [o' [E _]]]]; discriminate.
+  intros Ha. unfold refs. rewrite !in_app_iff, !in_map_iff.
+  intros [[w [E _]]|[[w [E _]]|[Hin|[Hin|[u [E _]]]]]].
+  - inversion E; subst. destruct Ha as [[o H]|[k H]]; discriminate.
+  - discriminate.
+  - apply var_refs_shape in Hin. destruct Hin as [-> _]. destruct Ha as [[o H]|[k H]]; discriminate.
+  - apply eval_refs_shape in Hin. destruct Hin as [[-> _]|[j [o [-> _]]]]; destruct Ha as [[o' H]|[k H]]; discriminate.
+  - inversion E; subst. destruct Ha as [[o H]|[k H]]; discriminate.
 Qed.
 
-(* the SymbolGraph never keeps an instance alive: every path from it ends at a wrapper *)
-Theorem registry_holds_nothing s o : ~ sreach (refs s) HSymbolGraph (HObj o).
+(* krrood never keeps an instance alive: no strong path from the symbol graph or from the expression tables to an instance *)
+Theorem krrood_holds_nothing s a o : a = HSymbolGraph \/ a = HExprTable -> ~ sreach (refs s) a (HObj o).
 Proof.
-  intro H. inversion H as [|a b c Hin Hr]; subst.
-  apply refs_from_graph in Hin. destruct Hin as [o' ->].
-  inversion Hr as [|a b c Hin2 _]; subst. eapply refs_from_wrapper; eauto.
+  intros Ha H. inversion H as [|a' b c Hin Hr]; subst.
+  - destruct Ha; discriminate.
+  - apply (refs_from_root s a b Ha) in Hin.
+    inversion Hr as [|a' b' c' Hin2 _]; subst.
+    + destruct Hin as [[o' E]|[k E]]; discriminate.
+    + eapply refs_dead_end; eauto.
 Qed.
 
-(* the expression table keeps alive exactly what some cached domain contains *)
-Lemma var_refs_strong k vs o : pinned vs o = true -> exists j, In (HExprTable, Strong, HVar j) (var_refs k vs) /\ In (HVar j, Strong, HObj o) (var_refs k vs).
+Corollary registry_holds_nothing s o : ~ sreach (refs s) HSymbolGraph (HObj o).
+Proof. apply krrood_holds_nothing. auto. Qed.
+
+(* what a live iterator has passed on is held by that iterator (which the program holds) *)
+Lemma eval_refs_strong es o : forall n, pinned es o = true ->
+  exists j, In (HProgram, Strong, HEval j) (eval_refs n es) /\ In (HEval j, Strong, HObj o) (eval_refs n es).
 Proof.
-  revert k. induction vs as [|v vs IH]; simpl; intros k H; [discriminate|].
+  induction es as [|[e|] es IH]; simpl; intros n H; [discriminate| |apply IH; auto].
   apply orb_true_iff in H. destruct H as [H|H].
-  - exists k. split; auto. right. rewrite in_app_iff. left. apply in_map_iff. exists o. split; auto.
-    apply existsb_exists in H. destruct H as [y [Hy E]]. apply Nat.eqb_eq in E. now subst.
-  - destruct (IH (S k) H) as [j [A B]]. exists j. split; right; rewrite in_app_iff; auto.
+  - exists n. split; auto. right. rewrite in_app_iff. left. apply in_map_iff. exists o. split; auto.
+    apply existsb_exists in H. destruct H as [y [Hy E]]. apply oeqb_eq in E. subst y.
+    unfold somes. apply in_flat_map. exists (Some o). simpl. auto.
+  - destruct (IH (S n) H) as [j [A B]]. exists j. split; right; rewrite in_app_iff; auto.
 Qed.
 
-Theorem cache_pins s o : pinned (vars s) o = true -> sreach (refs s) HExprTable (HObj o).
+Theorem live_iterator_holds s o : pinned (evals s) o = true -> sreach (refs s) HProgram (HObj o).
 Proof.
-  intros H. destruct (var_refs_strong 0 _ _ H) as [j [A B]].
-  apply sr_step with (b := HVar j); [unfold refs; rewrite !in_app_iff; auto|].
-  apply sr_step with (b := HObj o); [unfold refs; rewrite !in_app_iff; auto|]. constructor.
+  intros H. destruct (eval_refs_strong _ _ 0 H) as [j [A B]].
+  apply sr_step with (b := HEval j); [unfold refs; rewrite !in_app_iff; auto 6|].
+  apply sr_step with (b := HObj o); [unfold refs; rewrite !in_app_iff; auto 6|]. constructor.
 Qed.
 
 (* ------------------------------------------------------------------ over histories *)
@@ -153,61 +191,92 @@ Section Life.
   Notation run := (run children fuel).
   Notation adm_run := (adm_run children fuel).
 
-  (* every instance that still exists is referenced by the program or by a cached domain: nothing else holds it *)
+  (* every instance that still exists is referenced by the program: directly, or as a row of an iterator it holds *)
   Definition Accounted (s : st) : Prop :=
-    forall x, In x (live s) -> In (o_id x) (user s) \/ pinned (vars s) (o_id x) = true.
+    forall x, In x (live s) -> In (o_id x) (user s) \/ pinned (evals s) (o_id x) = true.
+  (* ... and what the program references exists *)
+  Definition UserLive (s : st) : Prop := forall o, In o (user s) -> mem_obj o (live s) = true.
 
-  Lemma pinned_app vs v o : pinned vs o = true -> pinned (vs ++ [v]) o = true.
+  Lemma pinned_app es e o : pinned es o = true -> pinned (es ++ [e]) o = true.
   Proof. unfold pinned. rewrite existsb_app. intros H. apply orb_true_iff. left. exact H. Qed.
 
-  Lemma pinned_set_nth o v : forall vs k old, nth_error vs k = Some old -> cache_of old = [] ->
-    pinned vs o = true -> pinned (set_nth k v vs) o = true.
+  Lemma pinned_set_nth o e' : forall es n e, nth_error es n = Some (Some e) ->
+    (forall v, In v (e_seen e) -> In v (e_seen e')) ->
+    pinned es o = true -> pinned (set_nth n (Some e') es) o = true.
   Proof.
-    induction vs as [|a vs IH]; intros k old Hn Hc Hp; [destruct k; discriminate|].
-    destruct k as [|k]; simpl in *.
-    - inversion Hn; subst a. rewrite Hc in Hp. simpl in Hp. rewrite Hp. apply orb_true_r.
+    induction es as [|a es IH]; intros n e Hn Hs Hp; [destruct n; discriminate|].
+    destruct n as [|n]; simpl in *.
+    - inversion Hn; subst a. apply orb_true_iff in Hp. apply orb_true_iff. destruct Hp as [Hp|Hp]; auto. left.
+      apply existsb_exists in Hp. destruct Hp as [y [Hy E]]. apply existsb_exists. exists y. auto.
     - apply orb_true_iff in Hp. apply orb_true_iff. destruct Hp as [Hp|Hp]; auto. right. eapply IH; eauto.
   Qed.
 
-  Lemma pinned_clear vs o :
-    pinned (map (fun v : cls * vstate => match snd v with VPending => (fst v, VStale) | _ => v end) vs) o = pinned vs o.
+  Lemma pinned_clear es o :
+    pinned (map (fun e => match e with
+                          | Some e => Some (if e_started e then EV (e_T e) true true (e_classes e) (e_cur e) (e_seen e) else e)
+                          | None => None end) es) o = pinned es o.
   Proof.
-    induction vs as [|[T [| |l]] vs IH]; simpl in *; auto; now rewrite IH.
+    induction es as [|[e|] es IH]; simpl in *; auto; rewrite IH; auto. destruct (e_started e); reflexivity.
   Qed.
 
-  (* declaring a domain-less variable reads nothing and holds nothing *)
-  Lemma declare_holds_nothing s T o :
-    live (fst (step s (DeclV T))) = live s /\ user (fst (step s (DeclV T))) = user s /\ g (fst (step s (DeclV T))) = g s /\
-    pinned (vars (fst (step s (DeclV T)))) o = pinned (vars s) o.
+  Lemma mem_nat_In o l : mem_nat o l = true <-> In o l.
   Proof.
-    simpl. repeat split. unfold pinned. rewrite existsb_app. simpl. now rewrite !orb_false_r.
+    unfold mem_nat. rewrite existsb_exists. split.
+    - intros [y [Hy E]]. apply Nat.eqb_eq in E. now subst.
+    - intros H. exists o. split; auto. apply Nat.eqb_refl.
   Qed.
 
-  (* declare-and-evaluate at once (QueryE) is declare followed by the first evaluation *)
-  Lemma fused_is_declare_eval s T :
-    snd (step s (QueryE T)) = snd (step (fst (step s (DeclV T))) (EvalV (length (vars s)))) /\
-    live (fst (step s (QueryE T))) = live (fst (step (fst (step s (DeclV T))) (EvalV (length (vars s))))) /\
-    g (fst (step s (QueryE T))) = g (fst (step (fst (step s (DeclV T))) (EvalV (length (vars s))))).
+  Lemma release_Accounted L u es x : In x (release L u es) -> In (o_id x) u \/ pinned es (o_id x) = true.
   Proof.
-    simpl. rewrite nth_error_app2 by auto. rewrite Nat.sub_diag. simpl. auto.
+    unfold release. rewrite filter_In, orb_true_iff, mem_nat_In. tauto.
   Qed.
 
   Lemma step_Accounted s o : Accounted s -> Accounted (fst (step s o)).
   Proof.
-    intros HA. unfold Accounted in *. destruct o as [c p i|x| |T|T|T|k|a f b ia ib|]; simpl; auto.
+    intros HA. unfold Accounted in *.
+    destruct o as [c p i|x| |T|T|T|k|k|n y|n|a f b ia ib|]; simpl; auto.
     - intros y Hy. apply in_app_iff in Hy. rewrite in_app_iff. destruct Hy as [Hy|[<-|[]]]; simpl; auto.
       destruct (HA _ Hy); auto.
-    - destruct (pinned (vars s) x) eqn:P; simpl; intros y Hy.
+    - destruct (pinned (evals s) x) eqn:P; simpl; intros y Hy.
       + destruct (HA _ Hy) as [H|H]; auto. destruct (Nat.eq_dec (o_id y) x) as [->|N]; auto.
         left. apply filter_In. split; auto. apply negb_true_iff, Nat.eqb_neq. auto.
       + apply filter_In in Hy. destruct Hy as [Hy N]. apply negb_true_iff, Nat.eqb_neq in N.
         destruct (HA _ Hy) as [H|H]; auto. left. apply filter_In. split; auto. apply negb_true_iff, Nat.eqb_neq. auto.
-    - intros y Hy. simpl in Hy. destruct (HA _ Hy); auto. right. now apply pinned_app.
-    - intros y Hy. simpl in Hy. destruct (HA _ Hy); auto. right. now apply pinned_app.
-    - destruct (nth_error (vars s) k) as [[T [| |l]]|] eqn:E; simpl; auto.
-      intros y Hy. destruct (HA _ Hy); auto. right. eapply pinned_set_nth; eauto.
+    - destruct (nth_error (vars s) k); simpl; auto.
+    - destruct (nth_error (vars s) k); simpl; auto.
+      intros y Hy. destruct (HA _ Hy); auto. right. now apply pinned_app.
+    - destruct (nth_error (evals s) n) as [[e|]|] eqn:E; simpl; auto.
+      destruct (e_stale e); simpl; auto.
+      destruct (pull _ _ _) as [[[v cur] cs]|]; simpl.
+      + intros z Hz. destruct (HA _ Hz); auto. right. eapply pinned_set_nth; eauto. simpl.
+        intros w Hw. rewrite in_app_iff. left. destruct (e_started e); auto.
+      + intros z Hz. now apply release_Accounted in Hz.
+    - destruct (nth_error (evals s) n); simpl; auto. intros z Hz. now apply release_Accounted in Hz.
     - destruct (relate _ _ _ _ _ _ _) as [r [nw|]]; simpl; auto.
     - intros y Hy. rewrite pinned_clear. auto.
+  Qed.
+
+  Lemma step_UserLive s o : UserLive s -> UserLive (fst (step s o)).
+  Proof.
+    intros HU. unfold UserLive in *.
+    assert (Rel : forall es u, (forall o, In o u -> mem_obj o (live s) = true) ->
+                   forall o, In o u -> mem_obj o (release (live s) u es) = true).
+    { intros es u H o' Ho. apply mem_obj_true. destruct (proj1 (mem_obj_true _ _) (H _ Ho)) as [x [Hx Ex]].
+      exists x. split; auto. unfold release. apply filter_In. split; auto. apply orb_true_iff. left.
+      apply mem_nat_In. now rewrite Ex. }
+    destruct o as [c p i|x| |T|T|T|k|k|n y|n|a f b ia ib|]; simpl; auto.
+    - intros o Ho. rewrite mem_obj_app. apply in_app_iff in Ho. destruct Ho as [Ho|[<-|[]]].
+      + rewrite HU; auto.
+      + simpl. rewrite Nat.eqb_refl. apply orb_true_r.
+    - destruct (pinned (evals s) x); simpl; intros o Ho; apply filter_In in Ho; destruct Ho as [Ho N].
+      + auto.
+      + apply mem_obj_filter. split; auto. apply negb_true_iff, Nat.eqb_neq in N. auto.
+    - destruct (nth_error (vars s) k); simpl; auto.
+    - destruct (nth_error (vars s) k); simpl; auto.
+    - destruct (nth_error (evals s) n) as [[e|]|]; simpl; auto.
+      destruct (e_stale e); simpl; auto. destruct (pull _ _ _) as [[[v cur] cs]|]; simpl; auto.
+    - destruct (nth_error (evals s) n); simpl; auto.
+    - destruct (relate _ _ _ _ _ _ _) as [r [nw|]]; simpl; auto.
   Qed.
 
   Theorem run_Accounted : forall h s, Accounted s -> Accounted (fst (run s h)).
@@ -217,22 +286,66 @@ Section Life.
     specialize (IH s1 H). destruct (run s1 h) as [s2 xs]. auto.
   Qed.
 
-  (* as long as no EQL query has cached a domain, dropping the last reference reclaims the instance *)
-  Theorem drop_reclaims h o :
-    no_eql h = true -> ~ In o (map o_id (live (fst (step (fst (run init h)) (Drop o))))).
+  Theorem run_UserLive : forall h s, UserLive s -> UserLive (fst (run s h)).
   Proof.
-    intros Hq. assert (H := live_is_user children fuel (h ++ [Drop o])).
-    assert (R : forall h s, fst (run s (h ++ [Drop o])) = fst (step (fst (run s h)) (Drop o))).
-    { clear. induction h as [|a h IH]; intros s.
-      - cbn [app Registry.run fst]. destruct (step s (Drop o)). reflexivity.
-      - cbn [app Registry.run]. destruct (step s a) as [s1 x]. specialize (IH s1).
-        destruct (run s1 (h ++ [Drop o])), (run s1 h). cbn [fst] in *. exact IH. }
-    rewrite R in H. rewrite H.
-    - simpl. destruct (pinned _ o); simpl; rewrite filter_In, negb_true_iff, Nat.eqb_neq; tauto.
-    - unfold no_eql in *. rewrite forallb_app, Hq. reflexivity.
+    induction h as [|o h IH]; simpl; intros s HA; auto.
+    assert (H := step_UserLive s o HA). destruct (step s o) as [s1 x]. simpl in *.
+    specialize (IH s1 H). destruct (run s1 h) as [s2 xs]. auto.
   Qed.
 
-  (* registry containers after create / relate / registry-query / drop-everything / sweep are empty again *)
+  (* after ANY history: whenever no live iterator holds a row, the instances that exist are exactly the ones the program
+     references -- evaluated queries, declared variables and the symbol graph hold on to nothing *)
+  Theorem existing_is_referenced h o :
+    (forall x, pinned (evals (fst (run init h))) x = false) ->
+    (In o (map o_id (live (fst (run init h)))) <-> In o (user (fst (run init h)))).
+  Proof.
+    intros Hp.
+    assert (HA : Accounted (fst (run init h))) by (apply run_Accounted; intros x []).
+    assert (HU : UserLive (fst (run init h))) by (apply run_UserLive; intros x []).
+    split.
+    - intros Hin. apply in_map_iff in Hin. destruct Hin as [x [<- Hx]]. destruct (HA _ Hx) as [H|H]; auto.
+      rewrite Hp in H. discriminate.
+    - intros Hin. apply HU in Hin. apply mem_obj_true in Hin. destruct Hin as [x [Hx <-]]. now apply in_map.
+  Qed.
+
+  (* dropping the last reference reclaims the instance, in any state, unless a live iterator has passed it on *)
+  Theorem drop_reclaims s o : pinned (evals s) o = false -> ~ In o (map o_id (live (fst (step s (Drop o))))).
+  Proof.
+    intros Hp. simpl. rewrite Hp. simpl. rewrite in_map_iff. intros [x [E Hx]]. apply filter_In in Hx.
+    destruct Hx as [_ N]. apply negb_true_iff, Nat.eqb_neq in N. auto.
+  Qed.
+
+  (* closing (or finalising) a live evaluation releases what only it was holding *)
+  Theorem close_releases s n x : nth_error (evals s) n <> None ->
+    In x (live (fst (step s (CloseV n)))) ->
+    In (o_id x) (user s) \/ pinned (set_nth n None (evals s)) (o_id x) = true.
+  Proof.
+    intros Hn. simpl. destruct (nth_error (evals s) n); [|congruence]. simpl. apply release_Accounted.
+  Qed.
+
+  (* declaring a domain-less variable reads nothing and holds nothing *)
+  Lemma declare_holds_nothing s T :
+    live (fst (step s (DeclV T))) = live s /\ user (fst (step s (DeclV T))) = user s /\ g (fst (step s (DeclV T))) = g s /\
+    evals (fst (step s (DeclV T))) = evals s.
+  Proof. simpl. auto. Qed.
+
+  (* a complete evaluation leaves nothing held either: it changes neither who exists nor what the iterators hold *)
+  Lemma evaluation_holds_nothing s q : (exists T, q = QueryE T) \/ (exists k, q = EvalV k) ->
+    live (fst (step s q)) = live s /\ user (fst (step s q)) = user s /\ evals (fst (step s q)) = evals s.
+  Proof.
+    intros [[T ->]|[k ->]]; simpl; auto. destruct (nth_error (vars s) k); simpl; auto.
+  Qed.
+
+  (* declare-and-evaluate at once (QueryE) is declare followed by a complete evaluation *)
+  Lemma fused_is_declare_eval s T :
+    snd (step s (QueryE T)) = snd (step (fst (step s (DeclV T))) (EvalV (length (vars s)))) /\
+    live (fst (step s (QueryE T))) = live (fst (step (fst (step s (DeclV T))) (EvalV (length (vars s))))) /\
+    g (fst (step s (QueryE T))) = g (fst (step (fst (step s (DeclV T))) (EvalV (length (vars s))))).
+  Proof.
+    simpl. rewrite nth_error_app2 by auto. rewrite Nat.sub_diag. simpl. auto.
+  Qed.
+
+  (* registry containers after create / relate / query / drop-everything / sweep are empty again *)
   Theorem no_growth h :
     adm_run init h = true -> live (fst (run init h)) = [] ->
     g (fst (step (fst (run init h)) Sweep)) = empty_reg.
@@ -241,4 +354,9 @@ Section Life.
     - rewrite <- Hl. apply sweep_inv, HI.
     - rewrite <- Hl. apply sweep_swept.
   Qed.
+
+  (* what does grow: one entry in the process-wide expression tables per query object (finding C20-a2) *)
+  Lemma expr_table_grows s q : (exists T, q = QueryE T) \/ (exists T, q = DeclV T) ->
+    length (vars (fst (step s q))) = S (length (vars s)).
+  Proof. intros [[T ->]|[T ->]]; simpl; rewrite app_length; simpl; lia. Qed.
 End Life.
